@@ -164,9 +164,12 @@ func lift(fn *Function) bool {
 	// instructions and ssa:deferstack() in functions that contain no
 	// 'defer' instructions. Eliminate ssa:deferstack() if it does not
 	// escape.
-	usesDefer := false
 	deferstackAlloc, deferstackCall := deferstackPreamble(fn)
 	eliminateDeferStack := deferstackAlloc != nil && !deferstackAlloc.Heap
+	// If the defer stack escapes, it is captured by the yield function of a
+	// range-over-func loop, whose body may defer calls onto this function's
+	// stack even if the function contains no Defer instruction of its own.
+	usesDefer := deferstackAlloc != nil && deferstackAlloc.Heap
 
 	// Determine which allocs we can lift and number them densely.
 	// The renaming phase uses this numbering for compact maps.
